@@ -188,6 +188,27 @@ pub fn extract_prefix(key: &[u8]) -> [u8; 4] {
     prefix
 }
 
+/// Rejects a page header whose counters cannot describe a page of PAGE_SIZE bytes: the slot
+/// array announced by `cell_count` must end at or before `free_start`, and
+/// `free_start <= free_end <= PAGE_SIZE`.  Every accessor relies on this.
+pub(crate) fn check_slot_geometry(
+    header: &PageHeader,
+    content_start: usize,
+    slot_size: usize,
+) -> Result<()> {
+    let slots_end = content_start + header.cell_count() as usize * slot_size;
+    let free_start = header.free_start() as usize;
+    let free_end = header.free_end() as usize;
+    ensure!(
+        slots_end <= free_start && free_start <= free_end && free_end <= PAGE_SIZE,
+        "corrupt page header: cell_count={} free_start={} free_end={}",
+        header.cell_count(),
+        free_start,
+        free_end
+    );
+    Ok(())
+}
+
 #[derive(Debug, Clone, Copy, PartialEq, Eq)]
 pub enum SearchResult {
     Found(usize),
@@ -217,6 +238,7 @@ impl<'a> LeafNode<'a> {
             "expected BTreeLeaf page, got {:?}",
             header.page_type()
         );
+        check_slot_geometry(header, LEAF_CONTENT_START, SLOT_SIZE)?;
         Ok(Self { data })
     }
 
@@ -356,6 +378,7 @@ impl<'a> LeafNodeMut<'a> {
             "expected BTreeLeaf page, got {:?}",
             header.page_type()
         );
+        check_slot_geometry(header, LEAF_CONTENT_START, SLOT_SIZE)?;
         Ok(Self { data })
     }
 
